@@ -606,6 +606,40 @@ fn special_cases(quick: bool, deep: bool, out: &mut JobOut) {
         )*};
     }
     int_axes!(u8, u16, u32, u64, usize, i8, i32, i64);
+    // (5) narrow integer element types with data longer than the type can count: constructing must
+    // not panic; with an explicit valid axis the build succeeds, with the default index axis (whose
+    // values cannot all be represented) it returns an error
+    macro_rules! narrow_types {
+        ($($t:ty),*) => {$(
+            let (lo, hi) = (<$t>::MIN as i64, <$t>::MAX as i64);
+            let all = (hi - lo + 1) as usize; // number of values of the type
+            for n in [hi as usize, hi as usize + 1, hi as usize + 2, all - 1, all, all + 1, all + 44] {
+                let any_err: &[&'static str] = &["ShapeError", "Monotonic", "NotEnoughData", "ValueError"];
+                let d1 = Array1::<$t>::from_elem(n, 1 as $t);
+                // default index axis: representable iff n - 1 <= MAX
+                let want: &[&'static str] = if n - 1 <= hi as usize { &[] } else { any_err };
+                let r = catch(|| Interp1DBuilder::new(d1.clone()).build().map(|_| ()));
+                judge1(format!("narrow1d:{}:n{n}:default-axis", stringify!($t)), r, want, out, format!("Interp1D<{}> over {n} values with the default index axis", stringify!($t)));
+                // explicit axis lo, lo+1, ..: exists iff n <= number of values of the type
+                if n <= all {
+                    let xa = Array1::from((0..n as i64).map(|i| (lo + i) as $t).collect::<Vec<$t>>());
+                    let r = catch(|| Interp1DBuilder::new(d1.clone()).x(xa.clone()).build().map(|_| ()));
+                    judge1(format!("narrow1d:{}:n{n}:explicit-axis", stringify!($t)), r, &[], out, format!("Interp1D<{}> over {n} values with the explicit axis {lo}, {}, ..", stringify!($t), lo + 1));
+                    let d2 = Array2::<$t>::from_elem((n, 2), 1 as $t);
+                    let ya = Array1::from(vec![0 as $t, 5 as $t]);
+                    let r = catch(|| Interp2DBuilder::new(d2.clone()).x(xa.clone()).y(ya.clone()).build().map(|_| ()));
+                    judge1(format!("narrow2dx:{}:n{n}:explicit-axes", stringify!($t)), r, &[], out, format!("Interp2D<{}> over ({n}, 2) values with explicit axes", stringify!($t)));
+                    let d3 = Array2::<$t>::from_elem((2, n), 1 as $t);
+                    let r = catch(|| Interp2DBuilder::new(d3.clone()).x(ya.clone()).y(xa.clone()).build().map(|_| ()));
+                    judge1(format!("narrow2dy:{}:n{n}:explicit-axes", stringify!($t)), r, &[], out, format!("Interp2D<{}> over (2, {n}) values with explicit axes", stringify!($t)));
+                }
+                let d2 = Array2::<$t>::from_elem((n, 2), 1 as $t);
+                let r = catch(|| Interp2DBuilder::new(d2.clone()).build().map(|_| ()));
+                judge1(format!("narrow2d:{}:n{n}:default-axes", stringify!($t)), r, want, out, format!("Interp2D<{}> over ({n}, 2) values with default axes", stringify!($t)));
+            }
+        )*};
+    }
+    narrow_types!(i8, u8, i16, u16);
     // (3) the default index axis of a long f32 data set is not strictly increasing (2^24 + 1 is
     // not representable): build must report it, not hand out an interpolator
     let n = (1usize << 24) + 2;
